@@ -1,4 +1,5 @@
 mod ops_eval;
+mod ops_hist;
 mod ops_span;
 mod util;
 
@@ -22,6 +23,7 @@ fn dispatch(line: &str) -> String {
     let r = std::panic::catch_unwind(|| match ws[0] {
         "span" => ops_span::handle(args),
         "eval" => ops_eval::handle(args),
+        "hist" => ops_hist::handle(args),
         "gcscript" => Some(rsjsonnet_lang::verif::run_script(args).join(";")),
         _ => None,
     });
